@@ -16,6 +16,14 @@ import vlib
 
 B = {"MaxTerm": 4, "MaxLog": 4, "MaxInflight": 1, "MaxElections": 3, "MaxCmds": 1, "MaxCrash": 0}
 
+C12 = {"Node": "{n1, n2}", "InitVoters": "{n1}", "MaxTerm": 2, "MaxLog": 6, "MaxInflight": 1, "MaxElections": 1, "MaxCmds": 1, "MaxCfgReqs": 1,
+       "EdAddPromote": "{n2}", "EdAddNonvoter": "{n2}", "RoundFastSet": "{TRUE, FALSE}"}
+C21 = {"Node": "{n1, n2}", "InitVoters": "{n1, n2}", "MaxTerm": 2, "MaxLog": 6, "MaxInflight": 1, "MaxElections": 1, "MaxCmds": 0, "MaxCfgReqs": 1,
+       "EdDemote": "{n1, n2}", "EdRemove": "{n1, n2}", "EdForceRemove": "{n2}"}
+# simulation-mode search (tlc -simulate) for guards whose counterexample is too deep for breadth-first search
+SIM = {"G_StepDownOnTerm": (400000, 60), "G_LeaderOwnTerm": (600000, 90), "G_FollowerOwnTerm": (600000, 90), "G_TruncateOnConflict": (400000, 80),
+       "G_ConsistencyCheck": (400000, 70), "G_FlushBeforeAck": (400000, 70), "G_LeaderFlush": (400000, 70), "G_StaleTermAppend": (400000, 80),
+       "G_OwnTermBeforeConfig": (400000, 80), "G_MajorityOfVoters": (400000, 70)}
 X2 = {"Node": "{n1, n2}", "InitVoters": "{n1, n2}", "MaxTerm": 4, "MaxLog": 4, "MaxInflight": 1, "MaxElections": 2, "MaxCmds": 1,
       "MaxXfers": 1, "MaxXferTries": 2, "XferTargets": "{None}"}
 
@@ -45,6 +53,15 @@ ATTACKS = {
                       "EdAddPromote": "{n2}", "RoundFastSet": "{TRUE, FALSE}", "FixD14": "FALSE"}, ["Inv_C11"])],
     "G_ReadAfterCommit": [("a", {"Node": "{n1, n2}", "InitVoters": "{n1, n2}", "MaxTerm": 2, "MaxLog": 4, "MaxInflight": 1, "MaxElections": 1, "MaxCmds": 3,
                                  "TrackClients": "TRUE", "ClientOps": '{"update", "read"}', "EagerFsm": "TRUE", "G_ReadAfterCommit": "FALSE"}, ["Inv_C07"])],
+    # membership guards (small clusters growing / shrinking by one voter)
+    "G_ConfigCommittedFirst": [("a", dict(C12, G_ConfigCommittedFirst="FALSE", MaxCfgReqs=2), ["Inv_C08"])],
+    "G_OwnTermBeforeConfig": [("a", dict(C12, G_OwnTermBeforeConfig="FALSE", MaxElections=2, MaxTerm=3, MaxCrash=1), ["Inv_C08"])],
+    "G_PromoteAfterRound": [("a", dict(C12, G_PromoteAfterRound="FALSE"), ["Inv_C11"])],
+    "G_NonVoterNoElection": [("a", {"Node": "{n1, n2}", "InitVoters": "{n1}", "InitNonvoters": "{n2}", "MaxTerm": 3, "MaxLog": 3, "MaxInflight": 1, "MaxElections": 2,
+                                    "G_NonVoterNoElection": "FALSE"}, ["Inv_C11"])],
+    "G_StepDownWhenDemoted": [("a", dict(C21, G_StepDownWhenDemoted="FALSE"), ["Inv_C11"])],
+    "G_MajorityOfVoters": [("a", {"Node": "{n1, n2, n3}", "InitVoters": "{n1, n2}", "InitNonvoters": "{n3}", "MaxTerm": 2, "MaxLog": 3, "MaxInflight": 1, "MaxElections": 1,
+                                  "MaxCmds": 1, "G_MajorityOfVoters": "FALSE"}, ["Inv_C06", "Inv_C02"])],
     # leadership transfer (2 voters: the smallest cluster in which a transfer is possible)
     "G_XferCaughtUp": [("a", dict(X2, G_XferCaughtUp="FALSE"), ["Inv_C16"])],
     "G_XferBlocksEntries": [("a", dict(X2, G_XferBlocksEntries="FALSE", MaxCmds=2), ["Inv_C16"])],
@@ -60,8 +77,14 @@ def main():
             w = vlib.scratch("atk")
             cexf = os.path.join(w, "cex.json")
             r = vlib.tlc(os.path.join(w, "mc"), "Raft", vlib.make_cfg(consts, invariants=invs),
-                         args=["-workers", str(vlib.NCPU), "-dumpTrace", "json", cexf], timeout=int(os.environ.get("ATTACK_TIMEOUT", "900")))
+                         args=["-workers", str(vlib.NCPU), "-dumpTrace", "json", cexf], timeout=int(os.environ.get("ATTACK_BFS_TIMEOUT", os.environ.get("ATTACK_TIMEOUT", "900"))))
             name = "%s-%s" % (g, var)
+            if not r["violated"] and g in SIM:
+                num, depth = SIM[g]
+                sc = dict(consts, Reduce="FALSE")
+                r = vlib.tlc(os.path.join(w, "sim"), "Raft", vlib.make_cfg(sc, invariants=invs, symmetry=False, view=False),
+                             args=["-workers", str(vlib.NCPU), "-simulate", "num=%d" % num, "-depth", str(depth), "-dumpTrace", "json", cexf],
+                             timeout=int(os.environ.get("ATTACK_TIMEOUT", "900")))
             if r["violated"]:
                 evs = vlib.cex_events(cexf)
                 s = vlib.schedule_from_events("attack-" + name, evs, consts)
